@@ -27,7 +27,7 @@ let handle = function
      | None -> dbs.(s) <- Some (db_empty (mode md)); "OK")
   | ["dbdestroy"; s] -> drop_cursors (); dbs.(int_of_string s) <- None; "OK"
   | ("sync" | "checkpoint") :: _ -> drop_cursors (); "-"
-  | ("put" | "putbig" | "del" | "cset" | "cdel") :: _ when !rdonly -> "READONLY"
+  | ("put" | "putbig" | "putkbig" | "del" | "cset" | "cdel") :: _ when !rdonly -> "READONLY"
   | "put" :: s :: k :: c :: v :: fl :: rest ->
     let s = int_of_string s in
     let ph = (match rest with [p] -> p | _ -> "0") in
@@ -42,6 +42,11 @@ let handle = function
        let ks = stored_size d.d_mode ek in
        if Z.compare (Z.add (Z.add (iW_VNUMSIZE ks) ks) (z_of_string sz)) (z_of_int 0xfffffff) = Gt then "MAXKVSZ" else "UNMODELLED"
      | (e, _) -> rcn e)
+  | ["putkbig"; s; _; c; ksz; v] ->
+    (* a key of ksz bytes (byte-key modes only): only the sizes matter, the model answers when the pair is rejected *)
+    let d = getdb (int_of_string s) in
+    let ks = Z.add (z_of_string ksz) (if d.d_mode.km_compound then iW_VNUMSIZE (z_of_string c) else Z0) in
+    if Z.compare (Z.add (Z.add (iW_VNUMSIZE ks) ks) (z_of_int (List.length (bytes_of_hex v)))) (z_of_int 0xfffffff) = Gt then "MAXKVSZ" else "UNMODELLED"
   | ["get"; s; k; c] ->
     let (r, v) = db_get (getdb (int_of_string s)) (bytes_of_hex k) (z_of_string c) in
     if r = ROk then "OK " ^ hex_of_bytes v else rcn r ^ " -"
